@@ -42,6 +42,12 @@ def jobs(tier):
                           symbolic=["n (size_t, full width)", "become() installed or not" if feat[0] == "VF_BECOME"
                                     else "n of first unstash decides what the second returns", "clock values"],
                           bounds="stashed=%d" % k, timeout=900, **common))
+    for k in range(1, ns + 1):
+        d = {"NS": k, "NS_FIXED": k, "VF_EVT_DTOR": EVT_DTOR, "VF_SECOND": None, "VF_RESTASH": None}
+        js.append(Job("C16.unstash.ns%d.restash" % k, "l1/c16_unstash.c", defines=d, unwind=k + 4, unwindset=RECUR,
+                      fp=UNSTASH_FP, native=NATIVE_U,
+                      symbolic=["n (size_t, full width)", "clock values"],
+                      bounds="stashed=%d, handler stashes the oldest event again during the unstash" % k, timeout=900, **common))
     d = {"NS": 2, "VF_EVT_DTOR": EVT_DTOR, "VF_BECOME": None}
     js.append(Job("C16.unstash.sym2", "l1/c16_unstash.c", defines=d, unwind=6, unwindset=RECUR, fp=UNSTASH_FP,
                   native=NATIVE_U, symbolic=["number stashed (0..2)", "n (size_t, full width)", "become() installed"],
